@@ -61,7 +61,9 @@ CHECKS = {
                           "interleaved at statement and line level, compared with a per-thread reference model",
                 text="Reference-model comparison of every Parallel construction and get_active_backend probe "
                      "(backend class, n_jobs, six backend kwargs, ValueError cases), restoration after every block exit "
-                     "(normal or by exception), defaults in fresh threads spawned inside a block, no leak at thread end.",
+                     "(normal or by exception), defaults in fresh threads spawned inside a block, no leak at thread end.  Executor tier "
+                     "(15% of the programs, one thread): objects that resolve to loky with several jobs enter their with-block and "
+                     "the temp_folder of the real reusable executor they get is compared with the setting in force.",
                 note="The model is the statement's precedence rule plus the documented fall-backs; joblib itself is "
                      "not stubbed, only the thread scheduler is simulated."),
     "C05": dict(engine="simfs", cat="fault_enumeration", ref="DESIGN.md section 3 (C05)",
@@ -129,7 +131,8 @@ CHECKS = {
                           "limit so that non-termination is a verdict, not a time-out",
                 text="Exhaustive truncation of small files, boundary-biased plus seeded sample for large ones, four kinds "
                      "of suffix, 7 compressor settings x protocols, from file objects and paths; the damaged load must "
-                     "terminate and raise or return the original object; Memory must recompute and never raise.",
+                     "terminate and raise or return the original object; Memory must recompute and never raise -- also when "
+                     "func_code.py or metadata.json is cut at any length or over-long (ASCII, NUL, invalid UTF-8, itself).",
                 note="Non-termination is decided by 50x the clean load's traced lines (+10000); MemoryError under a "
                      "2 GB address-space limit counts as non-termination."),
     "C08": dict(engine="interpreter nodes", cat="exploration", ref="DESIGN.md section 3 (C08)",
@@ -156,7 +159,9 @@ CHECKS = {
                           "durable cache directory, source rewritten and reloaded or code objects swapped as injected events, "
                           "every returned value checked against the version tag of the definition it was called through",
                 text="Values must carry the calling definition's version; unchanged code must keep its cache across "
-                     "restarts (execution counter); histories that only call the newest definition are judged strictly, "
+                     "restarts (execution counter); calls go through long-lived wrappers, Memory.eval, pickled copies made "
+                     "earlier in the history, MemorizedFunc.call; code objects nobody else references come and go; one source "
+                     "layout only ever appends lines; histories that only call the newest definition are judged strictly, "
                      "histories that call an older live definition are matched against known finding F13.",
                 note="Kill during invalidation is C05's; stale .pyc files are an interpreter matter (no bytecode written); "
                      "one lambda per module (documented collisions outside the domain)."),
